@@ -21,6 +21,9 @@ CHECKS = {
     'C18': dict(tech='GraphSLAM!Construct (bind by id, typing rules of Kinds.tla) explored exhaustively by TLC over the full cross product; every reached state replayed as Graph([edge], vertices) (binding A)',
                 text='The system specification states construction as: bind every edge position to the vertex with that id, accept iff all ids are known and the edge is well typed. TLC enumerates the complete cross product the property quantifies over (20 736 configurations quick, 97 920 thorough), checks on the model that the verdict is independent of list order and that accepted edges are bound by id, and each state is replayed against the real constructor: it must raise exactly when the specification rejects, and bind exactly as the specification binds.',
                 ref='4 C18', note='Validation is an assert in the library: python -O is outside the property. Edges naming the same vertex twice are not generated. Custom edge classes are represented by their own is_valid verdict.'),
+    'C17': dict(tech='verdict table EqModel.tla enumerated exhaustively by TLC (class x mutation x magnitude x tolerance x direction); every state replayed on real objects with x.equals(y) (binding A)',
+                text='The specification fixes what equals must answer for a copy, for a single-component perturbation far below / far above the tolerance (band in between left open), and for every structural difference, independent of direction; TLC enumerates the complete table (about 9 000 comparison cases incl. all cross-type pairs within a category) and each case is executed on real poses, vertices, odometry / landmark / custom edges and graphs; an exception is a violation.',
+                ref='4 C17', note='Pairs are drawn within one category (pose/pose, vertex/vertex, edge/edge, graph/graph). Perturbation exponents {-12,-9,-6,-3} below, {3,4,6} above, {-1,0,1} in the band. Two measurements of one custom class that differ only in float vs 1-element array are not required to compare unequal.'),
 }
 NA_REASON = 'check not built yet in this round (planned, see DESIGN.md section 4)'
 
